@@ -78,6 +78,58 @@ theorem callFn_wf (env : Env) (cx : Cx) (f : String) (args : List (Value N)) (v 
     · simp only [pure, Except.pure, Except.ok.injEq] at h; subst h; trivial
     · split at h <;> simp only [pure, Except.pure, Except.ok.injEq] at h <;> subst h <;> trivial
 
+theorem mapM'_pure (g : Ref → List Ref) : ∀ s : List Ref, mapM' (fun c => (pure (g c) : Except Err (List Ref))) s = .ok (s.flatMap g) := by
+  intro s
+  induction s with
+  | nil => rfl
+  | cons a r ih =>
+    rw [mapM']
+    simp only [pure, Except.pure, bind, Except.bind] at ih ⊢
+    rw [ih]
+    rfl
+
+/-- A step without predicates, XPath 1.0 semantics (every switch off): the result contains exactly the nodes of the document that
+are on the axis of some context node and pass the node test. -/
+theorem step_exact (env : Env) (hq : env.q.predMerged = false) (ax : Axis) (t : Test) (s : List Ref) :
+    ∃ r, evalSteps (N := N) env [.mk ax t []] s = .ok r ∧ IsNodeSet r ∧
+      ∀ x, x ∈ r ↔ x ∈ env.all ∧ ∃ c ∈ s, env.inAxis ax c x = true ∧ env.matchTest ax t x = true := by
+  refine ⟨env.norm (s.flatMap (env.candidates ax t)), ?_, env.norm_isNodeSet _, ?_⟩
+  · rw [evalSteps]
+    simp only [hq, Bool.false_eq_true, if_false]
+    have h1 : (fun c => evalPreds (N := N) env [] (if ax.isReverse = true then (env.candidates ax t c).reverse else env.candidates ax t c)) =
+        (fun c => (pure (if ax.isReverse = true then (env.candidates ax t c).reverse else env.candidates ax t c) : Except Err (List Ref))) := by
+      funext c; rw [evalPreds]
+    rw [h1, mapM'_pure]
+    simp only [bind, Except.bind, pure, Except.pure, evalSteps]
+    congr 1
+    -- normalisation forgets the axis order
+    unfold Env.norm mkNs
+    apply List.filter_congr
+    intro x _
+    simp only [List.contains_eq_mem, List.mem_flatMap, decide_eq_decide]
+    constructor
+    · rintro ⟨c, hc, hx⟩; refine ⟨c, hc, ?_⟩; split at hx <;> simpa using hx
+    · rintro ⟨c, hc, hx⟩; refine ⟨c, hc, ?_⟩; split <;> simpa using hx
+  · intro x
+    unfold Env.norm
+    rw [mem_mkNs]
+    simp only [Env.all, List.mem_flatMap, Env.candidates, List.mem_filter, Bool.and_eq_true]
+    constructor
+    · rintro ⟨hx, c, hc, _, h1, h2⟩; exact ⟨hx, c, hc, h1, h2⟩
+    · rintro ⟨hx, c, hc, h1, h2⟩; exact ⟨hx, c, hc, hx, h1, h2⟩
+
+/-- `|`: exactly the nodes of either operand -/
+theorem union_exact (env : Env) (a b : Expr) (cx : Cx) (l1 l2 : List Ref)
+    (ha : eval (N := N) env a cx = .ok (.ns l1)) (hb : eval (N := N) env b cx = .ok (.ns l2)) :
+    ∃ r, eval (N := N) env (.bin .union a b) cx = .ok (.ns r) ∧ IsNodeSet r ∧
+      ∀ x, x ∈ r ↔ x ∈ env.all ∧ (x ∈ l1 ∨ x ∈ l2) := by
+  refine ⟨env.norm (l1 ++ l2), ?_, env.norm_isNodeSet _, ?_⟩
+  · rw [eval, ha, hb]; rfl
+  · intro x
+    unfold Env.norm
+    rw [mem_mkNs]
+    simp [Env.all]
+
 /-- peel the binds of a `do` block whose last statement is `pure` of a non-node-set value -/
 local macro "scalar " h:ident : tactic =>
   `(tactic| (repeat (rw [Except.bind_eq_ok] at $h:ident; obtain ⟨_, _, $h:ident⟩ := $h:ident)
